@@ -4,12 +4,12 @@ open Common
      FIXMASK  = 1*fixA + 2*fixB + 4*fixC + 8*fixD + 16*fixE + 32*fixF   (0 = the faithful model)
      PROGRAM  = getter(0/1) p_start p_pb STMTS
      STMTS    = count STMT*
-     EXPR     = 0 id | 1 id | 2 | 3                (ident | call | literal | this)
+     EXPR     = 0 id | 1 id | 2 | 3 | 4 id | 5 id  (ident | call | literal | this | `[...id]` | `({[id]: 1})`)
      COND     = 0 | 1 | 2 EXPR | 3 EXPR b(0/1) | 4   (true | false | opaque | `(EXPR, b)` | truthy but unknown to swc)
      STMT     = 0 p EXPR | 1 p | 2 p is_var OPT(EXPR) | 3 p name pb STMTS | 4 p pb STMTS
               | 5 p OPT(EXPR) | 6 p EXPR | 7 p OPT(label) | 8 p OPT(label) | 9 p STMTS
               | 10 p COND STMT | 11 p COND STMT STMT | 12 p COND STMT | 13 p STMT COND
-              | 14 p OPT(COND) STMT | 15 p STMT | 16 p STMT | 17 p CASES | 18 p label STMT
+              | 14 p OPT(EXPR) OPT(COND) OPT(EXPR) STMT (init, test, update) | 15 p STMT | 16 p STMT | 17 p CASES | 18 p label STMT
               | 19 p bp STMTS OPT(cp hbp) STMTS OPT(fp) STMTS
               | 20 p gp pb STMTS                   (`({get a() {..}});`)
               | 21 p getter(0/1) fp pb STMTS STMT  (`for (const [k = FN] of o) STMT`)
@@ -20,6 +20,8 @@ let read_expr () =
   | 1 -> Syntax.ECall (read_n ())
   | 2 -> Syntax.ELit
   | 3 -> Syntax.EThis
+  | 4 -> Syntax.ESpread (read_n ())
+  | 5 -> Syntax.EComputed (read_n ())
   | _ -> failwith "expr"
 let read_cond () =
   match next_int () with
@@ -48,7 +50,9 @@ let rec read_stmt () : Syntax.stmt =
   | 11 -> let c = read_cond () in let a = read_stmt () in let b = read_stmt () in Syntax.SIfElse (p, c, a, b)
   | 12 -> let c = read_cond () in let b = read_stmt () in Syntax.SWhile (p, c, b)
   | 13 -> let b = read_stmt () in let c = read_cond () in Syntax.SDoWhile (p, b, c)
-  | 14 -> let c = read_opt read_cond in let b = read_stmt () in Syntax.SFor (p, c, b)
+  | 14 ->
+      let i = read_opt read_expr in let c = read_opt read_cond in let u = read_opt read_expr in
+      let b = read_stmt () in Syntax.SFor (p, i, c, u, b)
   | 15 -> let b = read_stmt () in Syntax.SForIn (p, b)
   | 16 -> let b = read_stmt () in Syntax.SForOf (p, b)
   | 17 -> let cs = read_cases () in Syntax.SSwitch (p, cs)
